@@ -106,3 +106,43 @@ def flatten(cases, outs):
                 if not s.get("fault"):
                     res.append((s, so))
     return res
+
+
+def scribble(obj, _depth=0):
+    """Overwrites in place everything mutable that persim RETURNED (call it after the values have been read out):
+    a caller is free to edit what it got back, so a later call whose result depends on it (a result cache that hands
+    out its stored object, a view of internal state) shows as a predicate failure of that later step."""
+    try:
+        import numpy as np
+    except Exception:  # pragma: no cover
+        np = None
+    if _depth > 4 or obj is None:
+        return
+    if np is not None and isinstance(obj, np.ndarray):
+        if obj.flags.writeable and obj.size:
+            try:
+                if obj.dtype.kind == "f":
+                    obj[...] = np.nan
+                elif obj.dtype.kind in "iu":
+                    obj[...] = 77
+                elif obj.dtype.kind == "O":
+                    for x in obj.flat:
+                        scribble(x, _depth + 1)
+            except Exception:
+                pass
+        return
+    if isinstance(obj, list):
+        for x in obj:
+            scribble(x, _depth + 1)
+        try:
+            obj.append("scribbled")
+        except Exception:
+            pass
+        return
+    if isinstance(obj, (tuple, set, frozenset)):
+        for x in obj:
+            scribble(x, _depth + 1)
+        return
+    if isinstance(obj, dict):
+        for x in list(obj.values()):
+            scribble(x, _depth + 1)
